@@ -128,7 +128,7 @@ def generate(rng, tier):
     delivery = rng.choice(["root", "root", "module", "module", "stdin"])
     return {"lane": "B", "source": name, "text": text, "mutations": desc, "depth": depth, "badutf8": badutf8,
             "delivery": delivery, "config": draw_config(rng), "hashseed": rng.below(1 << 32),
-            "via": rng.choice(["file", "file", "cli"]), "emit": rng.choice([[], [], ["--check"], ["--emit", "stdout"], ["--emit", "json"]])}
+            "via": rng.choice(["file", "file", "cli", "configpath"]), "emit": rng.choice([[], [], ["--check"], ["--emit", "stdout"], ["--emit", "json"]])}
 
 
 LANE_C_SRC = '''/// Example:
@@ -159,17 +159,24 @@ def execute(case):
             pass
         if case["via"] == "file":
             files["w/rustfmt.toml"] = gen_config.render(cfg)
+        elif case["via"] == "configpath":
+            # an explicit config in another directory, sometimes with an ignore list
+            txt = gen_config.render(cfg)
+            if case["hashseed"] % 2:
+                txt += 'ignore = ["other.rs", "gen/"]\n'
+            files["cfgdir/rustfmt.toml"] = txt
+            argv += ["--config-path", "$ROOT/cfgdir/rustfmt.toml" if case["hashseed"] % 4 < 2 else "$ROOT/cfgdir"]
         else:
             if cfg:
                 argv += ["--config", ",".join("%s=%s" % (k, gen_config.cli_value(x)) for k, x in cfg.items())]
         inv = {"cwd": "w", "hashseed": case["hashseed"]}
         if case["delivery"] == "root":
             files["w/input.rs"] = spec
-            inv["argv"] = argv + ["input.rs"]
+            inv["argv"] = argv + ["input.rs" if case["hashseed"] % 3 else "$ROOT/w/input.rs"]
         elif case["delivery"] == "module":
             files["w/main.rs"] = "mod input;\nfn  main( ){ }\n"
             files["w/input.rs"] = spec
-            inv["argv"] = argv + ["main.rs"]
+            inv["argv"] = argv + ["main.rs" if case["hashseed"] % 3 else "$ROOT/w/main.rs"]
         else:
             files["w/.keep"] = ""
             if case["emit"] == ["--check"] or not case["emit"] or case["emit"][0] == "--emit":
